@@ -1987,6 +1987,11 @@ def _known_routes(c):
     return None
 
 
+_REPAIRED_ROUTES = {"domain-axes-coordinate-route-drops-filter-keywords", "domain-axes-keyword-identity-not-last",
+                    "cell-methods-axis-route-drops-filter-keywords", "cell-methods-no-match-selects-all",
+                    "cell-methods-axis-route-cell-method-without-axes"}
+
+
 def _known(c):
     p = c.payload
     if c.stream == "C18.idn":
@@ -2012,13 +2017,21 @@ def _known(c):
     if c.stream in ("C18.dax", "C18.cm"):
         sig = _known_routes(c)
         if not sig:
-            # the same shapes as HEAD's short iteration sees the coordinates (two open findings combined)
+            # the same shapes as HEAD's short iteration sees the coordinates (two findings combined).  The route
+            # findings are repaired (b4c2641, 1d7e466) and their signatures suppress nothing: a case that only
+            # takes a route shape BECAUSE the short iteration hides an identity belongs to the open
+            # short-iteration finding and is left to the test below (which compares with the HEAD prediction)
             global _HEAD_SHORT
             _HEAD_SHORT = True
             try:
                 sig = _known_routes(c)
             finally:
                 _HEAD_SHORT = False
+        if sig in _REPAIRED_ROUTES:
+            # (also when the shape matched directly: the input has the shape of a repaired finding, but the failure
+            # at hand may be caused by the open short-iteration finding - decided below against the HEAD prediction;
+            # if it is not, the case stays unclassified and is reported)
+            sig = None
         if sig:
             return sig
     # an identity equal to another construct's key, and asked for
